@@ -83,10 +83,10 @@ func localClosures(fn *FuncInfo) map[types.Object]*ast.FuncLit {
 // condition expression; nested function literals are looked into (a literal
 // written in the loop runs, as far as this rule is concerned, where it stands).
 type varAccess struct {
-	reads    bool // reads v other than in v's own update
-	mustDef  bool // assigns v unconditionally, not from itself
-	mayDef   bool // assigns v (possibly inside a closure)
-	selfUpd  bool // v = f(v), v op= e, v++
+	reads   bool // reads v other than in v's own update
+	mustDef bool // assigns v unconditionally, not from itself
+	mayDef  bool // assigns v (possibly inside a closure)
+	selfUpd bool // v = f(v), v op= e, v++
 }
 
 func mentions(info *types.Info, n ast.Node, v types.Object) bool {
